@@ -99,7 +99,7 @@ def _work(args):
 
 
 def run(chk):
-    n = 160 if chk.tier == 'quick' else 4000
+    n = 400 if chk.tier == 'quick' else 4000
     chk.rule = ('histories of 5-16 operations out of construct(None | caller dict) / newCaller(nested partial dict, unknown keys '
                 'at any depth) / setGlobal / setSnap / setCaller / set_prms(YAML) / reset_prms(all | names | unknown name), on the '
                 'real objects; plus one full run() per history on a scene with per-call parameters; non-trivial = at least one '
